@@ -9,21 +9,21 @@ for _p in ('C04', 'C05'):
     PROPS[_p] = dict(
         level='exploration',
         builds={'replay': dict(pkg='./cmd/replay')},
-        stages=[dict(name='model', bin='replay', args=['-prop', _p], shards=shards(4, 16), par=16, timeout=1500)],
+        stages=[dict(name='model', bin='replay', args=['-prop', _p], shards=shards(4, 64), par=16, timeout=1500)],
         need_counters=['checks', 'accepts'] + (['replays_attempted'] if _p == 'C04' else []),
     )
 
 _pbuf = {'pbuf': dict(pkg='./cmd/pbuf', overlay='shim')}
 PROPS['C06'] = dict(
     level='exploration', builds=dict(_pbuf, pbuf_race=dict(pkg='./cmd/pbuf', overlay='shim', race=True)),
-    stages=[dict(name='seq', bin='pbuf', args=['-prop', 'C06', '-mode', 'seq'], shards=shards(4, 16), par=16),
-            dict(name='conc', bin='pbuf_race', args=['-prop', 'C06', '-mode', 'conc'], shards=shards(4, 16), par=16, crash_is_violation=True)],
+    stages=[dict(name='seq', bin='pbuf', args=['-prop', 'C06', '-mode', 'seq'], shards=shards(4, 96), par=16),
+            dict(name='conc', bin='pbuf_race', args=['-prop', 'C06', '-mode', 'conc'], shards=shards(4, 64), par=16, crash_is_violation=True)],
     replay_stage='seq',
     need_counters=['writes', 'reads', 'read_across_ring_end', 'grow_events', 'linearizable'],
 )
 PROPS['C07'] = dict(
     level='exploration', builds=_pbuf,
-    stages=[dict(name='seq', bin='pbuf', args=['-prop', 'C07', '-mode', 'seq'], shards=shards(4, 16), par=16)],
+    stages=[dict(name='seq', bin='pbuf', args=['-prop', 'C07', '-mode', 'seq'], shards=shards(4, 128), par=16)],
     need_counters=['writes', 'reads', 'refused_by_count', 'refused_by_size', 'refused_by_cap'],
 )
 
@@ -34,9 +34,9 @@ PROPS['C20'] = dict(
             'xor_old': dict(pkg='./cmd/xorchk', overlay='xorold'),
             'xor_old_race': dict(pkg='./cmd/xorchk', overlay='xorold', race=True),
             'xor_old_asan': dict(pkg='./cmd/xorchk', overlay='xorold', asan=True)},
-    stages=[dict(name='subtle', bin='xor_default', args=['-impl', 'subtle'], shards=shards(6, 12), par=16, crash_is_violation=True, crash_key='subtle:crash'),
+    stages=[dict(name='subtle', bin='xor_default', args=['-impl', 'subtle'], shards=shards(6, 36), par=16, crash_is_violation=True, crash_key='subtle:crash'),
             dict(name='subtle-asan', bin='xor_default_asan', args=['-impl', 'subtle-asan', '-nq', '48', '-nt', '130', '-nolong'], shards=shards(2, 8), par=16, crash_is_violation=True, crash_key='subtle:crash'),
-            dict(name='wordwise', bin='xor_old', args=['-impl', 'wordwise'], shards=shards(6, 12), par=16, crash_is_violation=True, crash_key='wordwise:crash'),
+            dict(name='wordwise', bin='xor_old', args=['-impl', 'wordwise'], shards=shards(6, 36), par=16, crash_is_violation=True, crash_key='wordwise:crash'),
             dict(name='wordwise-checkptr', bin='xor_old_race', args=['-impl', 'wordwise-checkptr', '-nq', '48', '-nt', '130', '-nolong'], shards=shards(4, 16), par=16, crash_is_violation=True, crash_key='wordwise:crash'),
             dict(name='wordwise-asan', bin='xor_old_asan', args=['-impl', 'wordwise-asan', '-nq', '48', '-nt', '130', '-nolong'], shards=shards(4, 16), par=16, crash_is_violation=True, crash_key='wordwise:crash')],
     replay_stage='wordwise',
@@ -66,7 +66,7 @@ PROPS['C15'] = dict(
 
 PROPS['C18'] = dict(
     level='exploration', builds={'pipes_race': dict(pkg='./cmd/pipes', race=True)},
-    stages=[dict(name='scripts', bin='pipes_race', shards=shards(4, 12), par=12, crash_is_violation=True, crash_key='pipes:crash')],
+    stages=[dict(name='scripts', bin='pipes_race', shards=shards(4, 72), par=12, crash_is_violation=True, crash_key='pipes:crash')],
     need_counters=['bridge_writes', 'bridge_delivered', 'bridge_reorder_batches', 'bridge_drop_calls', 'dpipe_reads', 'dpipe_reads_after_peer_close'],
 )
 
@@ -79,13 +79,13 @@ PROPS['C13'] = dict(
 for _p in ('C02', 'C03'):
     PROPS[_p] = dict(
         level='exploration', builds={'vnat': dict(pkg='./cmd/vnat', overlay='shim')},
-        stages=[dict(name='natmodel', bin='vnat', args=['-prop', _p], shards=shards(4, 12), par=12, crash_is_violation=True, crash_key='nat:crash')],
+        stages=[dict(name='natmodel', bin='vnat', args=['-prop', _p], shards=shards(4, 72), par=12, crash_is_violation=True, crash_key='nat:crash')],
         need_counters=['outbound', 'inbound', 'mapping_reused', 'mapping_expired_then_recreated', 'inbound_admitted', 'inbound_must_refuse_no-permission', 'inbound_must_refuse_expired', 'exhaustion_histories', '1to1_in', '1to1_out'],
     )
 
 PROPS['C09'] = dict(
     level='exploration', builds={'dl': dict(pkg='./cmd/dl', overlay='shim'), 'dl_race': dict(pkg='./cmd/dl', overlay='shim', race=True), 'dlsched': dict(pkg='./cmd/dlsched', overlay='yield')},
-    stages=[dict(name='fake', bin='dl', args=['-mode', 'fake'], shards=shards(4, 16), par=16, crash_is_violation=True, crash_key='deadline:crash'),
+    stages=[dict(name='fake', bin='dl', args=['-mode', 'fake'], shards=shards(4, 48), par=16, crash_is_violation=True, crash_key='deadline:crash'),
             dict(name='real@timer1', bin='dl_race', args=['-mode', 'real'], shards=shards(2, 6), par=6, env={'GODEBUG': 'asynctimerchan=1'}, crash_is_violation=True, crash_key='deadline:crash', replay='rerun'),
             dict(name='real@timer0', bin='dl_race', args=['-mode', 'real'], shards=shards(2, 6), par=6, env={'GODEBUG': 'asynctimerchan=0'}, crash_is_violation=True, crash_key='deadline:crash', replay='rerun')],
     replay_stage='fake',
@@ -103,7 +103,7 @@ PROPS['C08'] = dict(
 
 PROPS['C12'] = dict(
     level='exploration', builds={'udpsched': dict(pkg='./cmd/udpsched', overlay='yield')},
-    stages=[dict(name='sched', bin='udpsched', shards=shards(8, 14), par=14, timeout=2400, crash_is_violation=True, crash_key='udp:crash')],
+    stages=[dict(name='sched', bin='udpsched', shards=shards(8, 42), par=14, timeout=2400, crash_is_violation=True, crash_key='udp:crash')],
     need_counters=['quiescent_points_inspected', 'rebind_and_leak_probes', 'dfs_schedules', 'schedules_with_close_tasks'],
 )
 
@@ -125,13 +125,13 @@ PROPS['C17']['replay_stage'] = 'ctxio@timer1'
 
 PROPS['C11'] = dict(
     level='exploration', builds={'udpdemux_race': dict(pkg='./cmd/udpdemux', overlay='shim', race=True)},
-    stages=[dict(name='demux', bin='udpdemux_race', shards=shards(4, 12), par=6, crash_is_violation=True, crash_key='demux:crash', timeout=1800, replay='rerun')],
+    stages=[dict(name='demux', bin='udpdemux_race', shards=shards(4, 36), par=6, crash_is_violation=True, crash_key='demux:crash', timeout=1800, replay='rerun')],
     need_counters=['datagrams_read', 'connections', 'overflow_phases', 'refused_by_backlog', 'refused_by_filter', 'reconnect_cases', 'same_port_different_ip_pairs'],
 )
 
 PROPS['C01'] = dict(
     level='exploration', builds={'vtrace_race': dict(pkg='./cmd/vtrace', overlay='shim', race=True)},
-    stages=[dict(name='trace', bin='vtrace_race', args=['-prop', 'C01'], shards=shards(8, 14), par=14, crash_is_violation=True, crash_key='vnet:crash', timeout=1800)],
+    stages=[dict(name='trace', bin='vtrace_race', args=['-prop', 'C01'], shards=shards(8, 70), par=14, crash_is_violation=True, crash_key='vnet:crash', timeout=1800)],
     need_counters=['hop_events', 'must_deliver', 'datagrams_received', 'napt_outbound', 'nat_inbound_must', 'must_drop_held', 'loopback_received', 'ended_unbound', 'nat_1to1_outbound'],
 )
 
